@@ -4179,6 +4179,8 @@ def tie_notes(part):
         # keep the list of stopping slurs, we need to transfer them to the last
         # tied note
         slur_stops = cur_note.slur_stops
+        # likewise a tie to a following note has to continue from the last tied note
+        orig_tie_next = note.tie_next
 
         while next_measure and cur_note.end > next_measure.start:
             part.remove(cur_note, "end")
@@ -4225,6 +4227,9 @@ def tie_notes(part):
         if cur_note != note:
             for slur in slur_stops:
                 slur.end_note = cur_note
+            cur_note.tie_next = orig_tie_next
+            if orig_tie_next is not None:
+                orig_tie_next.tie_prev = cur_note
 
     # then split/tie any notes that do not have a fractional/dot duration
     divs_map = part.quarter_duration_map
@@ -4331,6 +4336,8 @@ def split_note(part, note, splits):
         part.add(cur_note, start, end)
 
     cur_note.tie_next = orig_tie_next
+    if orig_tie_next is not None:
+        orig_tie_next.tie_prev = cur_note
 
     if cur_note != note:
         for slur in slur_stops:
